@@ -84,7 +84,7 @@ class FsScenario(Scenario):
         pre = fm.gen_ops(rng, m, rng.randrange(0, 5), names=self_names, paced=False, allow={"mkdir", "mkfile", "makedirs"})
         m.drain()
         n = rng.randrange(1, 4) if rng.random() < 0.3 else rng.randrange(3, self.max_ops + 1)
-        if cfg.random() < 0.03:
+        if cfg.random() < (0.12 if tier == "thorough" else 0.03):
             n = 40
         paced = cfg.random() < self.paced_share
         unpaced = (not paced) and cfg.random() < self.unpaced_share  # histories outside the pacing condition (C03 soundness)
